@@ -1,3 +1,5 @@
 import GoluaVerif.Audit
 import GoluaVerif.Props.C02
+import GoluaVerif.Props.C02_Bits
 #audit_module GoluaVerif.Props.C02
+#audit_module GoluaVerif.Props.C02_Bits
